@@ -215,8 +215,11 @@ class Valuer:
         if isinstance(n, ast.Attribute):
             if txt in ("LinComb.ZERO", "runtime.LinComb.ZERO"):
                 return P()
-            if txt in ("LinComb.ONE", "LinComb.ONE_SAFE", "runtime.LinComb.ONE"):
+            if txt in ("LinComb.ONE_SAFE", "runtime.LinComb.ONE_SAFE"):
                 return P.const(1)
+            if txt in ("LinComb.ONE", "runtime.LinComb.ONE"):
+                # inside a guarded region LinComb.ONE is the guard wire (value 0 or 1), not the constant one
+                return self.env.get("LinComb.ONE", P.sym("ONE"))
             if n.attr in ("value", "lc"):
                 return self.val(n.value)
             return self.sym(txt)
